@@ -4,13 +4,16 @@
 //
 // Leaves: `lsx(block, key)` (= L S X[key]) and `lsx_inv(block, key)` (= S^-1 L^-1 X[key]).  This back end decrypts with the
 // standard's own structure (no pre-transformed keys), so no linearity of L is needed.
-// L: proof scripts that replay lsx / lsx_inv step by step with the crate's own `l_step` against the oracle's R / R^-1
-//    (the in-place rotating index of l_step vs the shifting array of the standard), then compare with the leaf itself.
+// L: (step) kuz_compact_leaf_lstep: ONE l_step on an arbitrary state and step index == one R (resp. R^-1) of the oracle under
+//    the rotating-index correspondence, helped by checked hint lemmas (`l_hints`); (composition) kuz_compact_leaf_lsx /
+//    kuz_compact_leaf_lsx_inv: the real lsx / lsx_inv with l_step uninterpreted and the sixteen instances of the step lemma
+//    assumed == oracle L S X / S^-1 L^-1 X.  (All sixteen steps with the real l_step in one query: > 900 s, not finished.)
 // W: lsx := L S X with S, L uninterpreted inverse pairs (kz_common), same for lsx_inv.
 use super::kz_common::{self as k, Route};
 use super::prelude::*;
 use crate::compact_soft::backends::{lsx, lsx_inv};
 use crate::consts::{P, P_INV};
+use crate::gft::{GFT_133, GFT_148, GFT_16, GFT_192, GFT_194, GFT_251, GFT_32};
 use crate::utils::{l_step, KEYGEN};
 use crate::Block;
 use refmodels::kuznyechik as r;
@@ -31,7 +34,7 @@ pub fn stub_lsx_ls(block: &mut Block, key: &Block) {
 
 // ---------------------------------------------------------------------------------------------------------- leaves
 
-//@ harness name=kuz_compact_leaf_consts prop=C07,C20 tier=quick bits=16 est=45 desc="L: P[x] == pi(x), P_INV[x] == pi^-1(x) for all octets x; KEYGEN[i] == C_{i+1} = L(Vec128(i+1)) for symbolic i in 0..32"
+//@ harness name=kuz_compact_leaf_consts prop=C07,C20 tier=quick bits=16 est=12 desc="L: P[x] == pi(x), P_INV[x] == pi^-1(x) for all octets x; KEYGEN[i] == C_{i+1} = L(Vec128(i+1)) for symbolic i in 0..32"
 verif_harness! {
     name: kuz_compact_leaf_consts,
     bytes: 2,
@@ -54,12 +57,119 @@ fn logical(m: &[u8; 16], s: usize) -> [u8; 16] {
     }
     a
 }
+/// (a1, ..., a15, a0): the word R^-1 feeds to l
+fn rot1(a: &[u8; 16]) -> [u8; 16] {
+    let mut t = [0u8; 16];
+    let mut i = 0;
+    while i < 15 {
+        t[i] = a[i + 1];
+        i += 1;
+    }
+    t[15] = a[0];
+    t
+}
 
-//@ harness name=kuz_compact_leaf_lsx prop=C07,C20 tier=thorough bits=256 est=300 cap=900 desc="L (proof script): lsx(b, k) == oracle L(S(b ^ k)) for all 2^256 (b, k): X and S directly, then each of the sixteen l_step(., i) against one R of the oracle under the rotating-index correspondence, finally the leaf itself against the replayed value"
+/// Hint lemmas for ONE l on the logical word t (standard's order: t[0] = a15 ... t[15] = a0).  A SAT solver does not find
+/// "XOR of sixteen table look-ups, accumulated from position 15 down" == "XOR of sixteen shift-and-add products, accumulated
+/// from position 0 up" by itself (measured: > 900 s per leaf), so the proof is handed over in small facts, each checked:
+///  (1) every product of l_step's tables equals the oracle's product: GFT_c[t_j] == mul_lc(j, t_j), j = 0..15 (c = 1: t_j);
+///  (2) with m_j = mul_lc(j, t_j), R_k = m_15 ^ .. ^ m_k (l_step's order) and F_k = m_0 ^ .. ^ m_k (l_func's order):
+///      R_k ^ F_{k-1} == F_15 for k = 15 .. 1 (each follows from the previous one by a 4-term XOR identity), R_0 == F_15;
+///  (3) F_15 == l_func(t) (same order, same terms).
+/// Returns R_0, the value l in l_step's accumulation order; Err if a hint does not hold (the harness then FAILS).
+fn l_hints(t: &[u8; 16]) -> Result<u8, ()> {
+    let mut j = 0;
+    while j < 16 {
+        let v = t[j] as usize;
+        let g = match j {
+            0 | 14 => GFT_148[v],
+            1 | 13 => GFT_32[v],
+            2 | 12 => GFT_133[v],
+            3 | 11 => GFT_16[v],
+            4 | 10 => GFT_194[v],
+            5 | 9 => GFT_192[v],
+            7 => GFT_251[v],
+            _ => t[j],
+        };
+        if g != r::mul_lc(j, t[j]) {
+            return Err(());
+        }
+        j += 1;
+    }
+    let mut f = [0u8; 16];
+    let mut acc = 0u8;
+    j = 0;
+    while j < 16 {
+        acc ^= r::mul_lc(j, t[j]);
+        f[j] = acc;
+        j += 1;
+    }
+    let total = f[15];
+    let mut rv = 0u8;
+    let mut k = 16;
+    while k > 0 {
+        k -= 1;
+        rv ^= r::mul_lc(k, t[k]);
+        if k >= 1 && (rv ^ f[k - 1]) != total {
+            return Err(());
+        }
+    }
+    if rv != total || total != r::l_func(t) {
+        return Err(());
+    }
+    Ok(rv)
+}
+
+fn conc_lstep(x: u128, i: usize) -> u128 {
+    k::pack(&l_step(k::unpack(x), i))
+}
+// composition harnesses: l_step as ONE uninterpreted function of (state, step index)
+cuf2!(uf_lstep, vuf_kuznyechik_cp_lstep, u128, usize, u128, conc_lstep);
+/// replaces crate::utils::l_step in the composition harnesses
+pub fn stub_l_step(msg: [u8; 16], i: usize) -> [u8; 16] {
+    k::unpack(uf_lstep::call(k::pack(&msg), i))
+}
+
+//@ harness name=kuz_compact_leaf_lstep prop=C07,C20 tier=quick bits=133 est=53 quick=C20 desc="L (one step, all states): for every state m in {0,1}^128 and every step index i in 0..16 (symbolic): l_step(m, i) read through the rotating-index correspondence == R of the oracle applied to the logical word, and l_step(m, 15 - i) == R^-1 of the oracle (the in-place LFSR of the crate vs the shifting array of the standard; GFT_* tables vs the oracle's field multiplication); helped by checked hint lemmas (table product == oracle product per octet, partial-sum re-association)"
+verif_harness! {
+    name: kuz_compact_leaf_lstep,
+    bytes: 18,
+    unwind: 20,
+    prop: |inp| {
+        let m: [u8; 16] = take(inp, 0);
+        let i = (inp[16] & 15) as usize;
+        if inp[17] & 1 == 0 {
+            // forward: before the step, i steps have been done
+            let a = logical(&m, i);
+            let lv = match l_hints(&a) {
+                Ok(v) => v,
+                Err(()) => return Some(false),
+            };
+            let m2 = l_step(m, i);
+            // l_step writes the new octet at physical index get_idx(15, i)
+            vcheck!(m2[(15 + 16 - i) & 15] == lv);
+            Some(logical(&m2, i + 1) == r::r(&a))
+        } else {
+            // backward: before the inverse step number i, the forward step count is 16 - i
+            let a = logical(&m, 16 - i);
+            let lv = match l_hints(&rot1(&a)) {
+                Ok(v) => v,
+                Err(()) => return Some(false),
+            };
+            let m2 = l_step(m, 15 - i);
+            // l_step(., 15 - i) writes the new octet at physical index get_idx(15, 15 - i) = i
+            vcheck!(m2[i] == lv);
+            Some(logical(&m2, 16 - (i + 1)) == r::r_inv(&a))
+        }
+    }
+}
+
+//@ harness name=kuz_compact_leaf_lsx prop=C07,C20 tier=quick bits=256 stub=1 est=62 quick=C20 desc="W (composition): lsx(b, k) == oracle L(S(b ^ k)) for all 2^256 (b, k): the real lsx (X, S through P, sixteen l_step(., i) in its order) with l_step an uninterpreted function of (state, index) and the oracle's linear form l_func an uninterpreted function; assumed: the sixteen instances of the one-step lemma kuz_compact_leaf_lstep at the states passed through"
 verif_harness! {
     name: kuz_compact_leaf_lsx,
     bytes: 32,
     unwind: 20,
+    stubs: [(crate::utils::l_step, stub_l_step), (refmodels::kuznyechik::l_func, k::stub_l_func)],
     prop: |inp| {
         let b: [u8; 16] = take(inp, 0);
         let key: [u8; 16] = take(inp, 16);
@@ -74,25 +184,29 @@ verif_harness! {
         vcheck!(m == a);
         i = 0;
         while i < 16 {
-            m = l_step(m, i);
+            // invariant (checked above / assumed in the previous iteration): logical(&m, i) == a
+            let m2 = l_step(m, i);
             let na = r::r(&a);
-            vcheck!(logical(&m, i + 1) == na);
-            a = logical(&m, i + 1);
+            // instance of the one-step lemma at (m, i): logical(l_step(m, i), i + 1) == R(logical(m, i)) = R(a)
+            vassume!(logical(&m2, i + 1) == na);
+            m = m2;
+            a = na;
             i += 1;
         }
-        vcheck!(a == m);
-        vcheck!(r::ls(&x0) == a);
+        vcheck!(m == a);
+        vcheck!(a == r::ls(&x0));
         let mut blk: Block = b.into();
         lsx(&mut blk, &key.into());
         Some(blk.0 == m)
     }
 }
 
-//@ harness name=kuz_compact_leaf_lsx_inv prop=C07,C20 tier=thorough bits=256 est=300 cap=900 desc="L (proof script): lsx_inv(b, k) == oracle S^-1(L^-1(b ^ k)) for all 2^256 (b, k): each l_step(., 15 - i) against one R^-1 of the oracle, then S^-1 through P_INV, finally the leaf itself"
+//@ harness name=kuz_compact_leaf_lsx_inv prop=C07,C20 tier=quick bits=256 stub=1 est=57 quick=C20 desc="W (composition): lsx_inv(b, k) == oracle S^-1(L^-1(b ^ k)) for all 2^256 (b, k): the real lsx_inv (X, sixteen l_step(., 15 - i), S^-1 through P_INV) with l_step an uninterpreted function of (state, index) and the oracle's l_func an uninterpreted function; assumed: the sixteen instances of the one-step lemma kuz_compact_leaf_lstep (R^-1 half) at the states passed through"
 verif_harness! {
     name: kuz_compact_leaf_lsx_inv,
     bytes: 32,
     unwind: 20,
+    stubs: [(crate::utils::l_step, stub_l_step), (refmodels::kuznyechik::l_func, k::stub_l_func)],
     prop: |inp| {
         let b: [u8; 16] = take(inp, 0);
         let key: [u8; 16] = take(inp, 16);
@@ -101,21 +215,24 @@ verif_harness! {
         let mut a = x0;
         let mut i = 0;
         while i < 16 {
-            m = l_step(m, 15 - i);
+            // invariant: logical(&m, 16 - i) == a
+            let m2 = l_step(m, 15 - i);
             let na = r::r_inv(&a);
-            // after j = i + 1 inverse steps the forward step count is 16 - j
-            vcheck!(logical(&m, 16 - (i + 1)) == na);
-            a = logical(&m, 16 - (i + 1));
+            // instance of the one-step lemma (R^-1 half) at (m, i)
+            vassume!(logical(&m2, 16 - (i + 1)) == na);
+            m = m2;
+            a = na;
             i += 1;
         }
-        vcheck!(a == m);
-        vcheck!(r::l_inv(&x0) == a);
+        vcheck!(m == a);
+        let li = r::l_inv(&x0);
+        vcheck!(a == li);
         i = 0;
         while i < 16 {
             m[i] = P_INV[m[i] as usize];
             i += 1;
         }
-        vcheck!(m == r::s_inv(&a));
+        vcheck!(m == r::s_inv(&li));
         let mut blk: Block = b.into();
         lsx_inv(&mut blk, &key.into());
         Some(blk.0 == m)
@@ -124,7 +241,7 @@ verif_harness! {
 
 // ---------------------------------------------------------------------------------------------------------- key schedule
 
-//@ harness name=kuz_compact_keys prop=C07,C20 tier=quick bits=256 stub=1 est=120 desc="W: round keys of KuznyechikEnc::new(key) (compact_soft expand) == oracle K1..K10 (Feistel key schedule with the computed C_1..C_32) for all 2^256 keys; lsx(b, k) := LS(b ^ k) where LS is ONE uninterpreted function shared with the oracle's L S (32 applications per side)"
+//@ harness name=kuz_compact_keys prop=C07,C20 tier=quick bits=256 stub=1 est=152 quick=C20 desc="W: round keys of KuznyechikEnc::new(key) (compact_soft expand) == oracle K1..K10 (Feistel key schedule with the computed C_1..C_32) for all 2^256 keys; lsx(b, k) := LS(b ^ k) where LS is ONE uninterpreted function shared with the oracle's L S (32 applications per side)"
 verif_harness! {
     name: kuz_compact_keys,
     bytes: 32,
@@ -137,7 +254,7 @@ verif_harness! {
 // lsx := L S X, lsx_inv := S^-1 L^-1 X with S, L uninterpreted inverse pairs (kz_common); arbitrary round keys (a superset of
 // the key schedule's outputs): with kuz_compact_keys this is conformance for all keys.
 
-//@ harness name=kuz_compact_enc_rk prop=C07,C03,C12,C20 tier=quick bits=1408 stub=1 est=60 desc="W: KuznyechikEnc over arbitrary round keys: encrypt_block == oracle E (9 LSX rounds + X), all round keys, all blocks"
+//@ harness name=kuz_compact_enc_rk prop=C07,C03,C12,C20 tier=quick bits=1408 stub=1 est=24 quick=C03 desc="W: KuznyechikEnc over arbitrary round keys: encrypt_block == oracle E (9 LSX rounds + X), all round keys, all blocks"
 verif_harness! {
     name: kuz_compact_enc_rk,
     bytes: 160 + 16,
@@ -145,7 +262,7 @@ verif_harness! {
     stubs: [(crate::compact_soft::backends::lsx, stub_lsx), (crate::compact_soft::backends::lsx_inv, stub_lsx_inv)],
     prop: |inp| { k::w_enc_rk(inp, Route::Enc) }
 }
-//@ harness name=kuz_compact_enc_rk_clone prop=C12,C20 tier=thorough bits=1408 stub=1 est=60 desc="W: clone of a KuznyechikEnc: encrypt_block == oracle E, all round keys, all blocks"
+//@ harness name=kuz_compact_enc_rk_clone prop=C12,C20 tier=thorough bits=1408 stub=1 est=39 desc="W: clone of a KuznyechikEnc: encrypt_block == oracle E, all round keys, all blocks"
 verif_harness! {
     name: kuz_compact_enc_rk_clone,
     bytes: 160 + 16,
@@ -153,7 +270,7 @@ verif_harness! {
     stubs: [(crate::compact_soft::backends::lsx, stub_lsx), (crate::compact_soft::backends::lsx_inv, stub_lsx_inv)],
     prop: |inp| { k::w_enc_rk(inp, Route::EncClone) }
 }
-//@ harness name=kuz_compact_enc_rk_val prop=C12,C03,C20 tier=thorough bits=1408 stub=1 est=60 desc="W: Kuznyechik::from(enc) (by value): encrypt_block == oracle E, all round keys, all blocks"
+//@ harness name=kuz_compact_enc_rk_val prop=C12,C03,C20 tier=thorough bits=1408 stub=1 est=41 desc="W: Kuznyechik::from(enc) (by value): encrypt_block == oracle E, all round keys, all blocks"
 verif_harness! {
     name: kuz_compact_enc_rk_val,
     bytes: 160 + 16,
@@ -161,7 +278,7 @@ verif_harness! {
     stubs: [(crate::compact_soft::backends::lsx, stub_lsx), (crate::compact_soft::backends::lsx_inv, stub_lsx_inv)],
     prop: |inp| { k::w_enc_rk(inp, Route::Val) }
 }
-//@ harness name=kuz_compact_enc_rk_ref prop=C12,C03,C20 tier=quick bits=1408 stub=1 est=60 desc="W: Kuznyechik::from(&enc) (by reference): encrypt_block == oracle E, all round keys, all blocks"
+//@ harness name=kuz_compact_enc_rk_ref prop=C12,C03,C20 tier=quick bits=1408 stub=1 est=41 desc="W: Kuznyechik::from(&enc) (by reference): encrypt_block == oracle E, all round keys, all blocks"
 verif_harness! {
     name: kuz_compact_enc_rk_ref,
     bytes: 160 + 16,
@@ -169,7 +286,7 @@ verif_harness! {
     stubs: [(crate::compact_soft::backends::lsx, stub_lsx), (crate::compact_soft::backends::lsx_inv, stub_lsx_inv)],
     prop: |inp| { k::w_enc_rk(inp, Route::Ref) }
 }
-//@ harness name=kuz_compact_enc_rk_refclone prop=C12,C20 tier=thorough bits=1408 stub=1 est=60 desc="W: Kuznyechik::from(&enc).clone(): encrypt_block == oracle E, all round keys, all blocks"
+//@ harness name=kuz_compact_enc_rk_refclone prop=C12,C20 tier=thorough bits=1408 stub=1 est=47 desc="W: Kuznyechik::from(&enc).clone(): encrypt_block == oracle E, all round keys, all blocks"
 verif_harness! {
     name: kuz_compact_enc_rk_refclone,
     bytes: 160 + 16,
@@ -182,7 +299,7 @@ verif_harness! {
 // This back end decrypts with the standard's own structure over the encryption round keys (no pre-transformed keys, no
 // linearity assumption).
 
-//@ harness name=kuz_compact_dec_rk_val prop=C07,C03,C12,C20 tier=quick bits=1408 stub=1 est=100 desc="W: KuznyechikDec::from(enc) (by value) over arbitrary encryption round keys: decrypt_block == oracle D = X[K1] S^-1 L^-1 X[K2] ... S^-1 L^-1 X[K10], all round keys, all blocks"
+//@ harness name=kuz_compact_dec_rk_val prop=C07,C03,C12,C20 tier=quick bits=1408 stub=1 est=75 quick=C03 desc="W: KuznyechikDec::from(enc) (by value) over arbitrary encryption round keys: decrypt_block == oracle D = X[K1] S^-1 L^-1 X[K2] ... S^-1 L^-1 X[K10], all round keys, all blocks"
 verif_harness! {
     name: kuz_compact_dec_rk_val,
     bytes: 160 + 16,
@@ -190,7 +307,7 @@ verif_harness! {
     stubs: [(crate::compact_soft::backends::lsx, stub_lsx), (crate::compact_soft::backends::lsx_inv, stub_lsx_inv)],
     prop: |inp| { k::w_dec_rk(inp, Route::Val, false, false) }
 }
-//@ harness name=kuz_compact_dec_rk_ref prop=C07,C03,C12,C20 tier=quick bits=1408 stub=1 est=100 desc="W: KuznyechikDec::from(&enc) (by reference): decrypt_block == oracle D, all round keys, all blocks"
+//@ harness name=kuz_compact_dec_rk_ref prop=C12,C07,C03,C20 tier=quick bits=1408 stub=1 est=60 desc="W: KuznyechikDec::from(&enc) (by reference): decrypt_block == oracle D, all round keys, all blocks"
 verif_harness! {
     name: kuz_compact_dec_rk_ref,
     bytes: 160 + 16,
@@ -198,7 +315,7 @@ verif_harness! {
     stubs: [(crate::compact_soft::backends::lsx, stub_lsx), (crate::compact_soft::backends::lsx_inv, stub_lsx_inv)],
     prop: |inp| { k::w_dec_rk(inp, Route::Ref, false, false) }
 }
-//@ harness name=kuz_compact_dec_rk_refclone prop=C12,C20 tier=thorough bits=1408 stub=1 est=100 desc="W: KuznyechikDec::from(&enc).clone(): decrypt_block == oracle D, all round keys, all blocks"
+//@ harness name=kuz_compact_dec_rk_refclone prop=C12,C20 tier=thorough bits=1408 stub=1 est=78 desc="W: KuznyechikDec::from(&enc).clone(): decrypt_block == oracle D, all round keys, all blocks"
 verif_harness! {
     name: kuz_compact_dec_rk_refclone,
     bytes: 160 + 16,
@@ -206,7 +323,7 @@ verif_harness! {
     stubs: [(crate::compact_soft::backends::lsx, stub_lsx), (crate::compact_soft::backends::lsx_inv, stub_lsx_inv)],
     prop: |inp| { k::w_dec_rk(inp, Route::RefClone, false, false) }
 }
-//@ harness name=kuz_compact_both_dec_rk_val prop=C07,C03,C12,C20 tier=thorough bits=1408 stub=1 est=100 desc="W: Kuznyechik::from(enc) (by value): decrypt_block == oracle D, all round keys, all blocks"
+//@ harness name=kuz_compact_both_dec_rk_val prop=C07,C03,C12,C20 tier=thorough bits=1408 stub=1 est=52 desc="W: Kuznyechik::from(enc) (by value): decrypt_block == oracle D, all round keys, all blocks"
 verif_harness! {
     name: kuz_compact_both_dec_rk_val,
     bytes: 160 + 16,
@@ -214,7 +331,7 @@ verif_harness! {
     stubs: [(crate::compact_soft::backends::lsx, stub_lsx), (crate::compact_soft::backends::lsx_inv, stub_lsx_inv)],
     prop: |inp| { k::w_dec_rk(inp, Route::Val, true, false) }
 }
-//@ harness name=kuz_compact_both_dec_rk_ref prop=C07,C03,C12,C20 tier=quick bits=1408 stub=1 est=100 desc="W: Kuznyechik::from(&enc) (by reference): decrypt_block == oracle D, all round keys, all blocks"
+//@ harness name=kuz_compact_both_dec_rk_ref prop=C12,C07,C03,C20 tier=quick bits=1408 stub=1 est=54 desc="W: Kuznyechik::from(&enc) (by reference): decrypt_block == oracle D, all round keys, all blocks"
 verif_harness! {
     name: kuz_compact_both_dec_rk_ref,
     bytes: 160 + 16,
@@ -222,7 +339,7 @@ verif_harness! {
     stubs: [(crate::compact_soft::backends::lsx, stub_lsx), (crate::compact_soft::backends::lsx_inv, stub_lsx_inv)],
     prop: |inp| { k::w_dec_rk(inp, Route::Ref, true, false) }
 }
-//@ harness name=kuz_compact_both_dec_rk_refclone prop=C12,C20 tier=thorough bits=1408 stub=1 est=100 desc="W: Kuznyechik::from(&enc).clone(): decrypt_block == oracle D, all round keys, all blocks"
+//@ harness name=kuz_compact_both_dec_rk_refclone prop=C12,C20 tier=thorough bits=1408 stub=1 est=63 desc="W: Kuznyechik::from(&enc).clone(): decrypt_block == oracle D, all round keys, all blocks"
 verif_harness! {
     name: kuz_compact_both_dec_rk_refclone,
     bytes: 160 + 16,
@@ -233,7 +350,7 @@ verif_harness! {
 
 // ---------------------------------------------------------------------------------------------------------- round trips
 
-//@ harness name=kuz_compact_rt_enc_dec prop=C01,C20 tier=thorough bits=1408 stub=1 est=100 desc="W: KuznyechikEnc encrypts, KuznyechikDec::from(&enc) decrypts: result == b, arbitrary round keys, all blocks (S, L uninterpreted inverse pairs)"
+//@ harness name=kuz_compact_rt_enc_dec prop=C01,C20 tier=thorough bits=1408 stub=1 est=45 desc="W: KuznyechikEnc encrypts, KuznyechikDec::from(&enc) decrypts: result == b, arbitrary round keys, all blocks (S, L uninterpreted inverse pairs)"
 verif_harness! {
     name: kuz_compact_rt_enc_dec,
     bytes: 160 + 16,
@@ -241,7 +358,7 @@ verif_harness! {
     stubs: [(crate::compact_soft::backends::lsx, stub_lsx), (crate::compact_soft::backends::lsx_inv, stub_lsx_inv)],
     prop: |inp| { k::w_roundtrip_rk(inp, 0, false) }
 }
-//@ harness name=kuz_compact_rt_ed prop=C01,C20 tier=quick bits=1408 stub=1 est=100 desc="W: Kuznyechik::from(&enc): dec(enc(b)) == b, arbitrary round keys, all blocks (S, L uninterpreted inverse pairs)"
+//@ harness name=kuz_compact_rt_ed prop=C01,C20 tier=quick bits=1408 stub=1 est=46 desc="W: Kuznyechik::from(&enc): dec(enc(b)) == b, arbitrary round keys, all blocks (S, L uninterpreted inverse pairs)"
 verif_harness! {
     name: kuz_compact_rt_ed,
     bytes: 160 + 16,
@@ -249,7 +366,7 @@ verif_harness! {
     stubs: [(crate::compact_soft::backends::lsx, stub_lsx), (crate::compact_soft::backends::lsx_inv, stub_lsx_inv)],
     prop: |inp| { k::w_roundtrip_rk(inp, 1, false) }
 }
-//@ harness name=kuz_compact_rt_de prop=C01,C20 tier=thorough bits=1408 stub=1 est=100 desc="W: Kuznyechik::from(&enc): enc(dec(b)) == b, arbitrary round keys, all blocks (S, L uninterpreted inverse pairs)"
+//@ harness name=kuz_compact_rt_de prop=C01,C20 tier=thorough bits=1408 stub=1 est=43 desc="W: Kuznyechik::from(&enc): enc(dec(b)) == b, arbitrary round keys, all blocks (S, L uninterpreted inverse pairs)"
 verif_harness! {
     name: kuz_compact_rt_de,
     bytes: 160 + 16,
